@@ -91,7 +91,11 @@ def gen(ch):
     else:
         assets.insert(1, ob)
     if g.tz:
-        # orders are compared with the zone-aware grid directly: give them in the grid's zone
+        # orders are compared with the zone-aware grid directly: give them zone-aware - in the grid's zone or, as the same
+        # instants, in another one
+        oz = ch.pick("ob.zone", [None, "UTC", "Asia/Tokyo"])
+        if oz:
+            ob["orders_zone"] = oz
         return dict(S.finish(gj, assets, prices), date_tz=g.tz)
     return S.finish(gj, assets, prices)
 
